@@ -17,7 +17,7 @@ func init() {
 			"D4 batch quantiles store the single-query result for the same element. "+
 			"D5 the iteration contract of every store the sketch iterates through (the C04-D3 obligations re-evaluated: each bin reported once with its weight, the callback's stop verdict honoured immediately, channels closed). "+
 			"D6 coherence across Copy — the exact variant's Copy returns {inner.Copy(), statistics.Copy()} (a shared statistics object would let a later operation on either sketch change the other's count, extremes and sum). "+
-			"SHARED (obligations of other properties that decide clauses this property states too, re-evaluated here under their home rule ids): C06-D3 sketch-state writes (decoders only accumulate, so the count stays the absorbed weight when decoding into a non-empty sketch). C10-D3 as C12-D7 (field tables of the statistics object: Copy, Clear, Reweight, Rescale, MergeWith, Add); C05-D9 as C12-D8 (named constructors give both sides the announced store kind). C02-D1 (the sketch merge adds the zero weight and merges both sides on every accepting path). "+
+			"SHARED (obligations of other properties that decide clauses this property states too, re-evaluated here under their home rule ids): C06-D3 sketch-state writes (decoders only accumulate, so the count stays the absorbed weight when decoding into a non-empty sketch). C10-D3 as C12-D7 (field tables of the statistics object: Copy, Clear, Reweight, Rescale, MergeWith, Add); C10-D6 as C12-D9 (the exact variant's accessors: count, sum and extremes from the statistics — (NaN, error) exactly when empty —, zero weight, stores and iteration from the inner sketch; the constructor from parts refuses exactly the disagreeing parts); C05-D9 as C12-D8 (named constructors give both sides the announced store kind). C02-D1 (the sketch merge adds the zero weight and merges both sides on every accepting path). "+
 			"NOT DECIDED: 'within alpha of the true extremes', monotonicity in q, accuracy of the approximate sum (numeric).",
 		"one obligation per path of the extreme/emptiness tables, per iteration clause; non-trivial = a path evaluation was needed",
 		true, runC12)
@@ -44,6 +44,9 @@ func runC12(c *Ctx) {
 	c.shared(func() { c06Additive(c, a) }, keyMentions("/write/", "block-local"))
 	// the exact variant answers count / sum / extremes from its statistics object: its field tables (C10-D3), all of them
 	c10StatObject(c, a, "C12-D7", "")
+	// … and what the exact variant reports (count, sum, emptiness, extremes, zero weight, iteration) is read from the
+	// right object on every path
+	c10Accessors(c, a, "C12-D9")
 	// the named constructors give both sides the announced store kind (the clamped extremes of collapsing sketches depend on it)
 	c05SketchCtors(c, "C12-D8")
 	// count = absorbed weight across merges: the sketch merge folds the zero weight and both sides on every accepting path
